@@ -56,6 +56,8 @@ pub fn alphabet() -> Vec<BOp> {
         BOp::Start(2.0),
         BOp::Start(-1000.0),
         BOp::End(0.0),
+        // an interval far shorter than machine epsilon in absolute terms (with Start(0.0))
+        BOp::End(1e-16),
         BOp::End(1.0),
         BOp::End(one_up),
         BOp::End(3.0),
@@ -161,7 +163,12 @@ pub struct ChainStats {
     /// chains of at most this many setters that the model accepts and that are not complete are
     /// completed with canonical valid values for whatever is missing, so that solve() builds
     pub complete_upto: usize,
+    /// set by the enumeration for the second evaluation of a chain: this time with the completion
+    pub completing: bool,
     pub completed: u64,
+    /// completed chains that built / whose chain ended in a rejection (they overlap with longer
+    /// plain chains, so they are not counted as distinct cases)
+    pub completed_outcomes: u64,
     pub solver_inverted_only: u64,
     pub hash: u64,
     pub mismatch: Option<Vec<BOp>>,
@@ -271,7 +278,7 @@ where
     };
     let mut prev_bounds: (Option<f64>, Option<f64>) = (None, None);
     let mut inverted_now = false;
-    let (extra, n_extra) = if cs.complete_upto > 0 && ops.len() <= cs.complete_upto { completion(ctor, ops, dim, euler) } else { ([BOp::Deriv; 7], 0) };
+    let (extra, n_extra) = if cs.completing { completion(ctor, ops, dim, euler) } else { ([BOp::Deriv; 7], 0) };
     if n_extra > 0 {
         cs.completed += 1;
         CURRENT_CHAIN.with(|c| c.borrow_mut().extend_from_slice(&extra[..n_extra]));
@@ -414,7 +421,14 @@ impl<'a> Visitor for EnumChains<'a> {
         // order per length-prefix, which is what makes every enumerated chain distinct
         let first = match self.first {
             None => {
-                let ok = eval_chain::<S, N, D, U>(&self.ctor, &[], self.dim, euler, &hooks, &mut cs);
+                let mut ok = eval_chain::<S, N, D, U>(&self.ctor, &[], self.dim, euler, &hooks, &mut cs);
+                if ok && self.complete_upto > 0 && completion(&self.ctor, &[], self.dim, euler).1 > 0 {
+                    let before = cs.rejected + cs.built;
+                    cs.completing = true;
+                    ok = eval_chain::<S, N, D, U>(&self.ctor, &[], self.dim, euler, &hooks, &mut cs);
+                    cs.completing = false;
+                    cs.completed_outcomes += cs.rejected + cs.built - before;
+                }
                 if !ok {
                     cs.mismatch = Some(CURRENT_CHAIN.with(|c| c.borrow().clone()));
                 }
@@ -435,9 +449,22 @@ impl<'a> Visitor for EnumChains<'a> {
             last_id = id;
             let ok = eval_chain::<S, N, D, U>(&self.ctor, &chain, self.dim, euler, &hooks, &mut cs);
             if !ok {
-                // the chain as replayed, with the canonical completion if one was appended
                 cs.mismatch = Some(CURRENT_CHAIN.with(|c| c.borrow().clone()));
                 return cs;
+            }
+            // the same chain once more, completed with canonical values for what is missing, so
+            // that solve() builds (the plain evaluation above has seen solve() on the prefix)
+            if chain.len() <= self.complete_upto && completion(&self.ctor, &chain, self.dim, euler).1 > 0 {
+                let before = cs.rejected + cs.built;
+                cs.completing = true;
+                let ok = eval_chain::<S, N, D, U>(&self.ctor, &chain, self.dim, euler, &hooks, &mut cs);
+                cs.completing = false;
+                cs.completed_outcomes += cs.rejected + cs.built - before;
+                if !ok {
+                    // the chain as replayed, with the canonical completion appended
+                    cs.mismatch = Some(CURRENT_CHAIN.with(|c| c.borrow().clone()));
+                    return cs;
+                }
             }
             // descend if every call of this chain is accepted and there is room
             let descend = idx.len() < self.maxlen && model_accepts(&self.ctor, &chain, self.dim, euler);
@@ -606,7 +633,7 @@ pub fn run_bexh_unit(
             if mode == crate::stats::MODE_BEXH {
                 // only the main enumeration is counted as distinct cases: the deeper sub-alphabet
                 // chains, the orders, subsets and insertions overlap with it and with each other
-                st.bexh_distinct += cs.rejected + cs.built;
+                st.bexh_distinct += cs.rejected + cs.built - cs.completed_outcomes;
             }
             if let Some(chain) = cs.mismatch {
                 confirm(mode, ui, kind, dim, field, chain, st, errs);
